@@ -130,7 +130,7 @@ class Sched:
             if t["done"] or op is None:
                 continue
             k = op["kind"]
-            if k in ("start", "put", "step"):
+            if k in ("start", "put", "step", "terminate"):
                 out.append(tid)
             elif k == "get" and op["q"].items:
                 out.append(tid)
@@ -142,6 +142,15 @@ class Sched:
         self.nsteps += 1
         if self.nsteps > self.horizon:
             raise HarnessError("step horizon exceeded")
+        op = self.threads[tid]["pending"]
+        if op and op.get("kind") == "terminate":
+            # kill the target (it is parked): unwind it under the controller, then let the caller go on
+            tgt = self.threads[op["target"]]
+            if not tgt["done"] and tgt["pending"] is not None:
+                tgt["pending"]["abort"] = True
+                tgt["killed"] = True
+                tgt["sem"].release()
+                self.ctl.acquire()
         self.threads[tid]["sem"].release()
         self.ctl.acquire()
 
@@ -174,7 +183,8 @@ class Sched:
                     state = {t["name"]: (t["pending"] or {}).get("kind") for t in self.threads.values()
                              if not t["done"]}
                     return "deadlock", state
-                indep = [x for x in en if self.threads[x]["pending"]["kind"] in ("get", "start", "step", "join")]
+                indep = [x for x in en if self.threads[x]["pending"]["kind"] in
+                         ("get", "start", "step", "join", "terminate")]
                 if self.reduce and indep:
                     tid = indep[0]
                 else:
@@ -255,7 +265,15 @@ class VProcess:
         s.park(dict(kind="step"))
 
     def join(self):
-        _sched().park(dict(kind="join", targets=[self.tid]))
+        s = _sched()
+        s.park(dict(kind="join", targets=[self.tid]))
+        if self.exitcode is None and s.threads[self.tid].get("killed"):
+            self.exitcode = -15
+
+    def terminate(self):
+        s = _sched()
+        if self.tid is not None and not s.threads[self.tid]["done"]:
+            s.park(dict(kind="terminate", target=self.tid))
 
 
 class VPool:
